@@ -90,6 +90,7 @@ Inductive nev :=
 | NStart (sess : nat) (ks : list nat)     (* session.GetBlocks: subscribe, then opWant *)
 | NBlock (k : nat)                        (* a block for k reaches the node *)
 | NCancel (i : nat)                       (* the context of request i is cancelled *)
+| NTick                                   (* time passes: idle ticks / periodic searches of the sessions fire *)
 | NLate (k : nat).                        (* the session want sender sends a want-block for k that it
                                              computed before k was received (C37-2); only with [f_late_want] *)
 
@@ -118,6 +119,7 @@ Definition nstep (fl : flags) (n : node) (e : nev) : node :=
               n_sw := map (fun sl => (fst sl, nrem k (snd sl))) (n_sw n);
               n_stale := n_stale n |}
       else n
+  | NTick => n                                   (* re-broadcasts concern live wants only *)
   | NLate k =>
       if f_late_want fl && negb (nmem k (wantlist n))
       then {| n_reqs := n_reqs n; n_sw := n_sw n; n_stale := k :: n_stale n |}
@@ -159,6 +161,21 @@ Definition leaking (n : node) : bool :=
   existsb (fun sl => negb (subsetb (sw_get (n_sw n) (fst sl))
                                    (others_wait (n_reqs n) (length (n_reqs n)) 0 (fst sl)))) (n_sw n) ||
   match n_stale n with [] => false | _ => true end.
+
+(** keys that open requests still wait for *)
+Definition awaited (n : node) : list nat :=
+  flat_map (fun r => if q_done r then [] else q_sub r) (n_reqs n).
+
+(** every observed want-list holds only keys that an open request waits for ("after the request
+    completes or its context is cancelled the want-list no longer contains those CIDs"), at every
+    point at which the harness looked, ticks included *)
+Fixpoint obs_within (n : node) (eos : list (nev * option (list nat))) : bool :=
+  match eos with
+  | [] => true
+  | (e, o) :: rest =>
+      let n' := nstep flags_off n e in
+      match o with Some l => subsetb l (awaited n') | None => true end && obs_within n' rest
+  end.
 
 (** ---------- cases ---------- *)
 Fixpoint sortn (l : list nat) : list nat :=
@@ -244,7 +261,8 @@ Definition check_case (c : case) : verdict :=
         list_eqb (fun w o => match o with Some l => nl_eqb (sortn w) (sortn l) | None => true end)
                  (ntrace f node0 evs) (map snd eos) &&
         list_eqb (fun r o => nl_eqb (sortn (q_out r)) (sortn o)) (n_reqs (nrun f node0 evs)) outs in
-      if same flags_off then verdict_of true (spec flags_off)
+      if negb (obs_within node0 eos) then VSpecFail
+      else if same flags_off then verdict_of true (spec flags_off)
       else if same f1 then (if spec f1 then VOk else if spec flags_off then VKnown 1 else VSpecFail)
       else VModelMismatch
   | CSys reqs wl =>
